@@ -356,7 +356,12 @@ inductive Ctl where
   | seek (t : Int)
   | stop
   | restart
+  | bufReset                -- xmp_play_buffer(ctx, NULL, 0, 0): the documented reset entry
   deriving Repr, Inhabited
+
+/-- `xmp_play_buffer(ctx, NULL, 0, 0)`: "reset internal state" — zeroes `p->loop_count` (and the
+buffer bookkeeping, which the sequencer does not read) -/
+def bufferReset (s : St) : St := { s with loopCount := 0 }
 
 def ctl (m : SeqMod) (s : St) : Ctl → St
   | .setPos p => (apiSetPosition m s p).getD s
@@ -366,6 +371,33 @@ def ctl (m : SeqMod) (s : St) : Ctl → St
   | .seek t => seekTime m s t
   | .stop => stopModule s
   | .restart => restartModule s
+  | .bufReset => bufferReset s
+
+/-- `xmp_play_buffer(ctx, out, size, loop)` with `out ≠ NULL`, as far as the sequencer sees it:
+`xmp_play_frame` is called each time the internal frame buffer is used up while the caller's
+buffer still wants data (`effs` = the effect outcomes of the frames it would ask for until `size`
+bytes are filled; the byte accounting is the C12 model `PlayBuffer`); the run ends early at the
+first frame that fails (`-XMP_END`, state untouched) and after the first frame that leaves
+`loop > 0 ∧ loop_count ≥ loop` (that frame HAS been played).  Nothing else touches the player
+state: in particular the `-XMP_END` return does not reset the loop counter.  Result: the states
+after the successful frames, in order. -/
+def playBuffer (m : SeqMod) (loop : Int) : St → List (Eff × Eff) → List St
+  | _, [] => []
+  | s, e :: rest =>
+    match playFrame m s e.1 e.2 with
+    | .ok s' => s' :: (if loop > 0 ∧ s'.loopCount ≥ loop then [] else playBuffer m loop s' rest)
+    | _ => []
+
+/-- the last state of a list, or `s` when it is empty (the state a buffer call leaves behind) -/
+def lastOr (s : St) : List St → St
+  | [] => s
+  | x :: xs => lastOr x xs
+
+/-- the stop rule of `xmp_play_buffer` on the loop counters reported after the frames it could
+play: how many of them it does play (driver command `pbuf`) -/
+def framesUntilLimit (loop : Int) : List Int → Nat
+  | [] => 0
+  | lc :: rest => if loop > 0 ∧ lc ≥ loop then 1 else 1 + framesUntilLimit loop rest
 
 /-- what `xmp_get_frame_info` reports (the C16 fields) -/
 structure Info where
